@@ -370,6 +370,22 @@ if sorted(natorder) != list(range(64)):
 num_qt = define(jpeglib, "NUM_QUANT_TBLS", "jpeglib.h")
 num_ht = define(jpeglib, "NUM_HUFF_TBLS", "jpeglib.h")
 dctsize2 = define(jpeglib, "DCTSIZE2", "jpeglib.h")
+num_arith = define(jpeglib, "NUM_ARITH_TBLS", "jpeglib.h")
+gd = func_body(jdm, "get_dac", "jdmarker.c")
+for pat, what in [(r"while\s*\(\s*length\s*>\s*0\s*\)", "loop"), (r"index\s*<\s*0\s*\|\|\s*index\s*>=\s*\(2\s*\*\s*NUM_ARITH_TBLS\)", "index check"),
+                  (r"arith_dc_L\[index\]\s*=\s*\(UINT8\)\s*\(val\s*&\s*0x0F\)\s*;\s*cinfo->arith_dc_U\[index\]\s*=\s*\(UINT8\)\s*\(val\s*>>\s*4\)", "L/U split"),
+                  (r"arith_dc_L\[index\]\s*>\s*cinfo->arith_dc_U\[index\]", "L > U check"),
+                  (r"if\s*\(\s*length\s*!=\s*0\s*\)\s*ERREXIT\s*\(\s*cinfo\s*,\s*JERR_BAD_LENGTH", "final length check")]:
+    if not re.search(pat, gd):
+        die("jdmarker.c: get_dac: '%s' is gone" % what)
+gsoi = func_body(jdm, "get_soi", "jdmarker.c")
+if not re.search(r"arith_dc_L\[i\]\s*=\s*0\s*;\s*cinfo->arith_dc_U\[i\]\s*=\s*1\s*;\s*cinfo->arith_ac_K\[i\]\s*=\s*5", gsoi):
+    die("jdmarker.c: get_soi arithmetic conditioning defaults changed")
+rmk = func_body(jdm, "read_markers", "jdmarker.c")
+if not re.search(r"case\s+M_DNL\s*:[^;]*?if\s*\(\s*!skip_variable\s*\(\s*cinfo\s*\)\s*\)", rmk, re.S):
+    die("jdmarker.c: read_markers no longer skips DNL with skip_variable")
+if not re.search(r"default\s*:.*?ERREXIT1\s*\(\s*cinfo\s*,\s*JERR_UNKNOWN_MARKER", rmk, re.S):
+    die("jdmarker.c: read_markers default case is no longer JERR_UNKNOWN_MARKER")
 gq = func_body(jdm, "get_dqt", "jdmarker.c")
 for pat, what in [(r"while\s*\(\s*length\s*>\s*0\s*\)", "loop while (length > 0)"), (r"prec\s*=\s*n\s*>>\s*4\s*;\s*n\s*&=\s*0x0F", "prec = n >> 4; n &= 0x0F"),
                   (r"if\s*\(\s*n\s*>=\s*NUM_QUANT_TBLS\s*\)\s*ERREXIT1", "index check"),
@@ -393,6 +409,13 @@ for pat, what in [(r"emit_2bytes\s*\(\s*cinfo\s*,\s*prec\s*\?\s*DCTSIZE2\s*\*\s*
                   (r"qval\s*=\s*qtbl->quantval\[jpeg_natural_order\[i\]\]", "zigzag emission order")]:
     if not re.search(pat, eq):
         die("jcmarker.c: emit_dqt: '%s' is gone" % what)
+# tj3TransformBufSize: bytes added per APP2 marker of an ICC profile
+tbs = func_body(tj, "tj3TransformBufSize", "turbojpeg.c")
+mb1 = re.search(r"retval\s*\+=\s*this->tempICCSize\s*\+\s*(\d+)\s*\*\s*\(size_t\)\s*this->tempICCMarkers", tbs)
+mb2 = re.search(r"retval\s*\+=\s*this->iccSize\s*\+\s*(\d+)\s*\*\s*\(\s*this->iccSize\s*/\s*(\d+)\s*\+\s*\(\s*this->iccSize\s*%\s*(\d+)\s*!=\s*0\s*\)\s*\)", tbs)
+if not mb1 or not mb2 or mb1.group(1) != mb2.group(1) or mb2.group(2) != mb2.group(3):
+    die("turbojpeg.c: tj3TransformBufSize ICC terms not understood")
+bufsize_per_marker, bufsize_chunk = int(mb1.group(1)), int(mb2.group(2))
 
 
 def zl(xs):
@@ -433,7 +456,8 @@ for k in ("TJSAMP_444", "TJSAMP_422", "TJSAMP_420", "TJSAMP_GRAY", "TJSAMP_440",
     P("Definition %s : Z := %d." % (k, sampv.get(k, -1)))
 P("Definition TJ_NUMSAMP : Z := %d.\nDefinition D_MAX_BLOCKS_IN_MCU : Z := %d." % (len(mcuw), dmax))
 P("Definition jpeg_natural_order : list Z := %s." % zl(natorder))
-P("Definition NUM_QUANT_TBLS : Z := %d.\nDefinition NUM_HUFF_TBLS : Z := %d.\nDefinition DCTSIZE2 : Z := %d." % (num_qt, num_ht, dctsize2))
+P("Definition NUM_QUANT_TBLS : Z := %d.\nDefinition NUM_HUFF_TBLS : Z := %d.\nDefinition DCTSIZE2 : Z := %d.\nDefinition NUM_ARITH_TBLS : Z := %d." % (num_qt, num_ht, dctsize2, num_arith))
+P("Definition TJ_BUFSIZE_ICC_PER_MARKER : Z := %d.\nDefinition TJ_BUFSIZE_ICC_CHUNK : Z := %d." % (bufsize_per_marker, bufsize_chunk))
 for k, v in cstates.items():
     P("Definition %s : Z := %d." % (k, v))
 P("Definition DSTATE_READY : Z := %d." % dstate_ready)
